@@ -944,7 +944,7 @@ func emFams(fams []*dto.MetricFamily) string {
 	return emit.L(it)
 }
 
-var gatherAdd = []string{"wa", "zone", "aa", "0first", "zz", "bb"}
+var gatherAdd = []string{"wa", "zone", "aa", "0first", "zz", "bb", "env", "dc", "kk", "w2"}
 
 func genGatherCollector(r *emit.Rng, i int) (prometheus.Collector, string) {
 	name := []string{"x", "req_total", "lat", "métrica"}[r.Intn(4)]
@@ -958,9 +958,11 @@ func genGatherCollector(r *emit.Rng, i int) (prometheus.Collector, string) {
 		}
 		return ctr, "counter"
 	case 1:
-		gv := prometheus.NewGaugeVec(prometheus.GaugeOpts{Name: name, Help: "h", ConstLabels: cl}, []string{"k", "v"})
-		for k := 1 + r.Intn(3); k > 0; k-- {
-			gv.WithLabelValues(fmt.Sprint(r.Intn(3)), fmt.Sprint(r.Intn(3))).Set(float64(r.Intn(100)) / 4)
+		vars := []string{"k", "v"}[:1+r.Intn(2)]
+		gv := prometheus.NewGaugeVec(prometheus.GaugeOpts{Name: name, Help: "h", ConstLabels: cl}, vars)
+		for k := 2 + r.Intn(3); k > 0; k-- { // 2-4 distinct children
+			lvs := []string{fmt.Sprint(k), fmt.Sprint(r.Intn(3))}[:len(vars)]
+			gv.WithLabelValues(lvs...).Set(float64(r.Intn(100)) / 4)
 		}
 		return gv, "vec"
 	case 2:
@@ -1018,7 +1020,11 @@ func gatherStream(c *cli.Ctx, r *emit.Rng, n int) error {
 				ls[j] = layer{isPrefix: true, prefix: []string{"p_", "ns_sub_", "", "é_"}[r.Intn(4)]}
 			} else {
 				m := prometheus.Labels{}
-				for k := r.Intn(3); k > 0; k-- {
+				want := r.Intn(3)
+				if r.Chance(1, 2) { // up to 7 labels in one wrapper (3 and 5-7 leave spare capacity in a slice grown by append)
+					want = []int{3, 5, 6, 7, 4, 3}[r.Intn(6)]
+				}
+				for k := want; k > 0; k-- {
 					nm := gatherAdd[r.Intn(len(gatherAdd))]
 					if !used[nm] {
 						used[nm] = true
@@ -1077,7 +1083,7 @@ func gatherStream(c *cli.Ctx, r *emit.Rng, n int) error {
 			style += "+pedantic"
 		}
 		w.Add(emit.Tup("3", emLayers(ls), emFams(f0), emFams(f1), emFams(f2), emit.B(ok), emit.I(len(f3))),
-			len(f0) > 0, "gather:coll="+kind, style, fmt.Sprintf("gather:layers=%d", nl))
+			len(f0) > 0, "gather:coll="+kind, style, fmt.Sprintf("gather:layers=%d", nl), fmt.Sprintf("gather:added-labels=%d", len(used)))
 	}
 	return w.Flush()
 }
